@@ -1690,6 +1690,28 @@ func c16Table() []*c16Case {
 			}
 		}
 	}
+	// The same kind of failure in two files of one run, at every pair of
+	// positions: the second one is to be treated like the first.
+	for i := 0; i < 3; i++ {
+		for j := i + 1; j < 3; j++ {
+			for _, k := range []int{1, 3} { // rewrite error, unparseable result; both with a change that does apply
+				for _, via := range []string{"p", "P"} {
+					cs := &c16Case{Mode: "kinds", Via: via, Patches: threePatches(), Args: argStyles[(i+j)%2]}
+					for x := 0; x < 3; x++ {
+						switch x {
+						case i:
+							cs.Files = append(cs.Files, badFiles(i)[k])
+						case j:
+							cs.Files = append(cs.Files, badFiles(j)[k])
+						default:
+							cs.Files = append(cs.Files, good(x))
+						}
+					}
+					out = append(out, cs)
+				}
+			}
+		}
+	}
 	// An unreadable target behind / before another failing file.
 	for u := 0; u < 3; u++ {
 		for o := 0; o < 3; o++ {
